@@ -77,4 +77,43 @@ Definition after_defaults (parsed : list nat) (cs cs' : (nat -> @cell val var)) 
                          cs' o = mkCell VALUE_DEFAULTED (c_vals (cs o) ++ [x]) (store o x (c_var (cs o)))) /\
             ((~ In o os \/ forall d, ~ needs_default parsed cs o d) -> cs' o = cs o).
 
+(* ---------------- several runs over the same targets (Model.run_once / run_runs) ---------------- *)
+Variable newrun : nat -> var -> var.
+
+(* option o is given a value by the sources of one run (which starts with nothing recorded): a composing option by any source that
+   mentions it, any other option by the first source that mentions it without excluding it *)
+Definition run_mentioned (o : nat) (h : list (option (list nat) * list (nat * str))) : bool :=
+  if comp o then existsb (fun s => mentions o (snd s)) h
+  else match first_src o h with Some _ => true | None => false end.
+
+(* ... and the parser results it receives: all of them in order (composing), or those of the winning source *)
+Definition run_values (o : nat) (h : list (option (list nat) * list (nat * str))) : list val :=
+  if comp o then flat_map (fun s => accepted o (snd s)) h
+  else match first_src o h with Some (_, src) => accepted o src | None => [] end.
+
+(* what ONE error-free run (sources h, then defaults over the options 0..n-1) leaves behind, relative to the variable store cs the
+   run started from: an option that received a value in THIS run holds store(values of THIS run) applied to the re-built variable;
+   an option that received none got its default (if it has one and belongs to the context), else keeps what the store held *)
+Definition after_run (n : nat) (cs : nat -> @cell val var) (h : list (option (list nat) * list (nat * str)))
+           (p : list nat) (cs2 : nat -> @cell val var) : Prop :=
+  forall o,
+    mem o p = run_mentioned o h /\
+      if run_mentioned o h then
+      c_state (cs2 o) = VALUE_UNASSIGNED /\ c_vals (cs2 o) = run_values o h /\ run_values o h <> [] /\
+      c_var (cs2 o) = store_all o (run_values o h) (newrun o (c_var (cs o))) /\
+      (comp o = false ->
+       exists ex src v x, first_src o h = Some (ex, src) /\ In (o, v) src /\
+      count_occ Nat.eq_dec (map fst src) o = 1%nat /\ parser o (eff odesc o v) = Some x /\
+      run_values o h = [x])
+    else match o_dflt (odesc o) with
+         | Some d => if (o <? n)%nat
+                     then exists x, parser o (eff odesc o d) = Some x /\ cs2 o = mkCell VALUE_DEFAULTED [x] (store o x (newrun o (c_var (cs o))))
+                     else cs2 o = mkCell VALUE_UNASSIGNED [] (newrun o (c_var (cs o)))
+         | None => cs2 o = mkCell VALUE_UNASSIGNED [] (newrun o (c_var (cs o)))
+         end.
+
+(* the option received a value in the run: from a source, or its default *)
+Definition run_received (n : nat) (o : nat) (h : list (option (list nat) * list (nat * str))) : bool :=
+  run_mentioned o h || (match o_dflt (odesc o) with Some _ => (o <? n)%nat | None => false end).
+
 End Spec.
